@@ -3,7 +3,7 @@ NA['C08'] = 'same as C04: run histories through Evolver/ORM (Version, Evolution 
 NA['C10'] = 'same as C04: needs Django migration loader/executor/recorder end to end, untraceable and with only discrete scenario choices (DESIGN.md section 6)'
 
 check('C09',
-      'Bounded model checking of the real DependencyGraph code: CrossHair explores every path of add_node/add_dependency/finalize/get_ordered with the whole edge relation symbolic; exhaustive for all digraphs on <=4 nodes (quick) / 5 nodes as far as the budget reaches (thorough). Acyclic => order is a permutation honouring every edge; cyclic => exception. Plus EvolutionGraph (add_evolutions, mark_evolutions_applied, iter_batches, get_evolution_dependencies, get_evolution_app_dependencies) over three fake apps with symbolic evolution counts, applied prefixes, one before/after declaration at evolution or app level and both registration orders: every pending evolution exactly once, sequence order and the declared requirement honoured.',
+      'Bounded model checking of the real DependencyGraph code: CrossHair explores every path of add_node/add_dependency/finalize/get_ordered with the whole edge relation symbolic; exhaustive for all digraphs on <=4 nodes (quick); thorough adds a seeded sample of 96 of the 4096 twelve-bit classes of 5-node digraphs, each class exhaustively. Acyclic => order is a permutation honouring every edge; cyclic => exception. Plus EvolutionGraph (add_evolutions, mark_evolutions_applied, iter_batches, get_evolution_dependencies, get_evolution_app_dependencies) over three fake apps with symbolic evolution counts, applied prefixes, one before/after declaration at evolution or app level and both registration orders: every pending evolution exactly once, sequence order and the declared requirement honoured.',
       'Trusted: CrossHair+z3, the Kahn oracle in harness/c09.py. Outside: signal order during a real evolve(), migrations in the graph (add_migration_plan) and Django migration planner, graphs beyond the bound. Fake app modules; importlib untraced.',
       'CrossHair symbolic execution (z3) of utils/graph.py, partitioned, counterexamples replayed concretely',
       design_ref='5.7')
@@ -73,8 +73,8 @@ check('C02',
       'z3 over the SMT semantics of the emitted INSERT..SELECT/UPDATE/ALTER statements with symbolic table contents; sat models replayed on real SQLite', category='translation_validation', design_ref='5.2')
 
 check('C03',
-      'Bounded model checking of the optimiser (AppMutator._preprocess_mutations and its batch processing) over all valid sequences of two mutations (thorough: 120 kind patterns of three) from 9 kinds x 2 models x 2 fields x 3-4 new names with reuse: the optimised list simulates to the same final signature as one-at-a-time application, the evolution definitions are left untouched, and a second pass over the same objects gives the same result. One genuine defect (RenameModel onto a just-freed name is reordered) is a known finding.',
-      'Signature level only (schema/row equality of the two runs is outside). The optimiser runs traced; reference run and comparison run untraced on the concrete data of the path. Sequences with two identical hints are excluded. Trusted: CrossHair+z3.',
+      'Bounded model checking of the optimiser (AppMutator._preprocess_mutations and its batch processing) over all valid sequences of two mutations (thorough: 120 kind patterns of three) from 9 kinds x 2 models x 2 fields x 3-4 new names with reuse: the optimised list simulates to the same final signature as one-at-a-time application, the evolution definitions are left untouched, and a second pass over the same objects gives the same result (thorough: also 12 kind patterns of four with name reuse). Schema and row-data equality of the batched vs the one-at-a-time run is decided by the E2 engine for enumerated pairs of mutations (real SQL both ways, z3 over symbolic contents). Known findings: RenameModel onto a just-freed name is reordered; batched index bookkeeping; regrouping across models; merged ChangeField initial.',
+      'E1 part at signature level, E2 part enumerates programs (pairs); the Evolver task pipeline is outside. The optimiser runs traced; reference run and comparison run untraced on the concrete data of the path. Sequences with two identical hints are excluded. Trusted: CrossHair+z3.',
       'CrossHair symbolic execution (z3) of mutators/app_mutator.py optimiser over symbolic mutation sequences; counterexamples replayed concretely',
       design_ref='5.3')
 
